@@ -1,5 +1,6 @@
 # Copyright (c) 2023 Graphcore Ltd. All rights reserved.
 import logging
+from inspect import signature
 from typing import Any, Callable, Dict, List, Optional, Tuple, TypeVar
 
 import torch.nn.functional as F
@@ -95,17 +96,26 @@ def _replace_with_quantised(
     # Ideally we'd pass the formats as kwargs, but it currently causes a torch fx bug.
     # This workaround will suffice for now...
     args = [*node.args]
-    if len(node.args) == 2:  # pragma: no cover
-        args.append(None)
+    kwargs = dict(node.kwargs)
+    assert callable(node.target)
+    quantised_fn = _replacement_map[node.target]
+    # The first three (tensor) arguments must be positional, as the format tuples are
+    # spliced in after them. They may have been passed by keyword (or bias omitted).
+    for name in list(signature(quantised_fn).parameters)[len(args) : 3]:
+        args.append(kwargs.pop(name, None))
+    if "attention" in quantised_fn.__name__:
+        # Further positional args are keyword-only in the quantised attention wrappers
+        kwargs.update(zip(("attn_mask", "dropout_p", "is_causal"), args[3:6]))
+        del args[3:6]
     # Breaks when I pass in FPFormat objects, so convert to tuple and back
     args = (
         args[:3] + [format_to_tuple(fwd_format), format_to_tuple(bwd_format)] + args[3:]
     )
 
-    assert callable(node.target)
-    quantised_fn = _replacement_map[node.target]
     logger.info("quantising function: %s", node)
-    replace_node_with_function(graph, node, quantised_fn, args=tuple(args))
+    replace_node_with_function(
+        graph, node, quantised_fn, args=tuple(args), kwargs=kwargs
+    )
 
 
 def _quantisation_backend(fwd_format: FPFormat, bwd_format: FPFormat) -> Backend:
